@@ -34,6 +34,7 @@ const (
 
 type cmafIngesterMgr struct {
 	nr        atomic.Uint64
+	mu        sync.RWMutex // protects ingesters and cancels
 	ingesters map[uint64]*cmafIngester
 	state     ingesterState
 	s         *Server
@@ -57,8 +58,51 @@ type cmafIngester struct {
 	asset          *asset
 	repsData       []cmafRepData
 	nextSegTrigger chan struct{}
+	mu             sync.Mutex // protects state and report
 	state          ingesterState
 	report         []string
+}
+
+func (c *cmafIngester) setState(state ingesterState) {
+	c.mu.Lock()
+	c.state = state
+	c.mu.Unlock()
+}
+
+func (c *cmafIngester) getState() ingesterState {
+	c.mu.Lock()
+	defer c.mu.Unlock()
+	return c.state
+}
+
+func (c *cmafIngester) addReport(msg string) {
+	c.mu.Lock()
+	c.report = append(c.report, msg)
+	c.mu.Unlock()
+}
+
+func (c *cmafIngester) getReport() []string {
+	c.mu.Lock()
+	defer c.mu.Unlock()
+	return append([]string{}, c.report...)
+}
+
+// getIngester returns the ingester with the given id.
+func (cm *cmafIngesterMgr) getIngester(id uint64) (*cmafIngester, bool) {
+	cm.mu.RLock()
+	defer cm.mu.RUnlock()
+	c, ok := cm.ingesters[id]
+	return c, ok
+}
+
+// cancelIngester cancels the context of the ingester with the given id (if it has been started).
+func (cm *cmafIngesterMgr) cancelIngester(id uint64) {
+	cm.mu.RLock()
+	cancel := cm.cancels[id]
+	cm.mu.RUnlock()
+	if cancel != nil {
+		cancel()
+	}
 }
 
 func NewCmafIngesterMgr(s *Server) *cmafIngesterMgr {
@@ -75,8 +119,10 @@ func (cm *cmafIngesterMgr) Start() {
 }
 
 func (cm *cmafIngesterMgr) Close() {
+	cm.mu.RLock()
+	defer cm.mu.RUnlock()
 	for i, cancel := range cm.cancels {
-		if cm.ingesters[i].state == ingesterStateRunning {
+		if cm.ingesters[i].getState() == ingesterStateRunning {
 			cancel()
 		}
 	}
@@ -183,20 +229,24 @@ func (cm *cmafIngesterMgr) NewCmafIngester(req CmafIngesterSetup) (nr uint64, er
 	if c.dur != nil {
 		c.nrSegsToSend = m.Ptr(*c.dur * 1000 / asset.SegmentDurMS)
 	}
+	cm.mu.Lock()
 	cm.ingesters[nr] = &c
+	cm.mu.Unlock()
 
 	return nr, nil
 }
 
 func (cm *cmafIngesterMgr) startIngester(nr uint64) {
-	c, ok := cm.ingesters[nr]
+	c, ok := cm.getIngester(nr)
 	if !ok {
 		return
 	}
 	var ctx context.Context
 	var cancel context.CancelFunc
 	ctx, cancel = context.WithCancel(context.Background())
+	cm.mu.Lock()
 	cm.cancels[nr] = cancel
+	cm.mu.Unlock()
 	go c.start(ctx)
 }
 
@@ -223,7 +273,7 @@ type cmafRepData struct {
 func (c *cmafIngester) start(ctx context.Context) {
 
 	defer func() {
-		c.state = ingesterStateStopped
+		c.setState(ingesterStateStopped)
 	}()
 
 	// Finally we should send off the init segments
@@ -238,7 +288,7 @@ func (c *cmafIngester) start(ctx context.Context) {
 		if ok {
 			if err != nil {
 				msg := fmt.Sprintf("error matching time subs init lang: %v", err)
-				c.report = append(c.report, msg)
+				c.addReport(msg)
 				c.log.Error(msg)
 				return
 			}
@@ -248,7 +298,7 @@ func (c *cmafIngester) start(ctx context.Context) {
 			err := init.EncodeSW(sw)
 			if err != nil {
 				msg := fmt.Sprintf("Error encoding init segment: %v", err)
-				c.report = append(c.report, msg)
+				c.addReport(msg)
 				c.log.Error(msg)
 				return
 			}
@@ -257,19 +307,19 @@ func (c *cmafIngester) start(ctx context.Context) {
 			match, err := matchInit(rd.initPath, c.cfg, c.mgr.s.Cfg.DrmCfg, c.asset)
 			if err != nil {
 				msg := fmt.Sprintf("Error matching init segment: %v", err)
-				c.report = append(c.report, msg)
+				c.addReport(msg)
 				c.log.Error(msg)
 			}
 			if !match.isInit {
 				msg := fmt.Sprintf("Error matching init segment: %v", err)
-				c.report = append(c.report, msg)
+				c.addReport(msg)
 				c.log.Error(msg)
 			}
 			contentType = match.rep.SegmentType()
 			initBin, err = setRawInitProps(match.init, rd, startTimeS)
 			if err != nil {
 				msg := fmt.Sprintf("Error setting init times: %v", err)
-				c.report = append(c.report, msg)
+				c.addReport(msg)
 				c.log.Error(msg)
 			}
 		}
@@ -277,17 +327,17 @@ func (c *cmafIngester) start(ctx context.Context) {
 		err = c.sendInitSegment(ctx, rd, initBin)
 		if err != nil {
 			msg := fmt.Sprintf("error uploading init segment: %v", err)
-			c.report = append(c.report, msg)
+			c.addReport(msg)
 			c.log.Error(msg)
 			nrInitErrors++
 		} else {
 			c.log.Info("Sent init segment", "path", rd.initPath, "contentType", contentType, "size", len(initBin))
-			c.report = append(c.report, fmt.Sprintf("Sent init segment %s", rd.initPath))
+			c.addReport(fmt.Sprintf("Sent init segment %s", rd.initPath))
 		}
 	}
 	if nrInitErrors > 0 {
 		msg := fmt.Sprintf("Number of init errors: %d", nrInitErrors)
-		c.report = append(c.report, msg)
+		c.addReport(msg)
 		c.log.Error("could not upload init segments", "nrErrors", nrInitErrors)
 		return
 	}
@@ -299,7 +349,7 @@ func (c *cmafIngester) start(ctx context.Context) {
 	} else {
 		nowMS = int(time.Now().UnixNano() / 1e6)
 	}
-	c.state = ingesterStateRunning
+	c.setState(ingesterStateRunning)
 
 	refRep := c.asset.refRep
 	lastNr := findLastSegNr(c.cfg, c.asset, nowMS, refRep)
@@ -316,7 +366,7 @@ func (c *cmafIngester) start(ctx context.Context) {
 	availabilityTime, err := calcSegmentAvailabilityTime(c.asset, refRep, uint32(nextSegNr), c.cfg)
 	if err != nil {
 		msg := fmt.Sprintf("Error calculating segment availability time: %v", err)
-		c.report = append(c.report, msg)
+		c.addReport(msg)
 		c.log.Error(msg)
 		return
 	}
@@ -353,7 +403,7 @@ func (c *cmafIngester) start(ctx context.Context) {
 		err := c.sendMediaSegments(ctx, nextSegNr, int(availabilityTime), isLast)
 		if err != nil {
 			msg := fmt.Sprintf("Error sending media segments: %v", err)
-			c.report = append(c.report, msg)
+			c.addReport(msg)
 			c.log.Error(msg)
 			return
 		}
@@ -361,7 +411,7 @@ func (c *cmafIngester) start(ctx context.Context) {
 		availabilityTime, err = calcSegmentAvailabilityTime(c.asset, refRep, uint32(nextSegNr), c.cfg)
 		if err != nil {
 			msg := fmt.Sprintf("Error calculating segment availability time: %v", err)
-			c.report = append(c.report, msg)
+			c.addReport(msg)
 			c.log.Error(msg)
 			return
 		}
@@ -374,12 +424,12 @@ func (c *cmafIngester) start(ctx context.Context) {
 			deltaTime := time.Duration(availabilityTime-int64(nowMS)) * time.Millisecond
 			for deltaTime <= 0 {
 				msg := fmt.Sprintf("Segment availability time in the past: %d", availabilityTime)
-				c.report = append(c.report, msg)
+				c.addReport(msg)
 				c.log.Error(msg)
 				err := c.sendMediaSegments(ctx, nextSegNr, int(availabilityTime), false /* isLast */)
 				if err != nil {
 					msg := fmt.Sprintf("Error sending media segments: %v", err)
-					c.report = append(c.report, msg)
+					c.addReport(msg)
 					c.log.Error(msg)
 					return
 				}
@@ -387,7 +437,7 @@ func (c *cmafIngester) start(ctx context.Context) {
 				availabilityTime, err = calcSegmentAvailabilityTime(c.asset, refRep, uint32(nextSegNr), c.cfg)
 				if err != nil {
 					msg := fmt.Sprintf("Error calculating segment availability time: %v", err)
-					c.report = append(c.report, msg)
+					c.addReport(msg)
 					c.log.Error(msg)
 					return
 				}
